@@ -709,3 +709,35 @@ def equivalent_docs(case):
         d = "\n".join(list(difflib.unified_diff((f1.get(k) or "").splitlines(), (f2.get(k) or "").splitlines(), lineterm="", n=0))[:8])
         return f"{case}: generated trees differ in {diff[:4]}: {d[:400]}"
     return None
+
+
+# ---- mypy on schematic packages (C11, bounded: not a post-condition of any /repo function) ----------------------------------
+
+def mypy_violation(which="models"):
+    import contextlib
+    import io
+    import os
+    import shutil
+    import subprocess
+    import sys
+    import tempfile
+    from .replay import generate_tree
+    import contracts.endpoints_f as ef
+    import contracts.models_f as mf
+    doc, cfg = {"models": (mf.document("3.1.0")[0], {}), "models-literal": (mf.document("3.0.3")[0], {"literal_enums": True}),
+                "endpoints": (ef.document("3.0.3")[0], {})}[which]
+    with contextlib.redirect_stdout(io.StringIO()):
+        errors, out, files, tmp = generate_tree(document=doc, config=cfg)
+    try:
+        ini = os.path.join(tmp, "mypy.ini")
+        with open(ini, "w") as f:
+            f.write("[mypy]\ndisallow_any_generics = True\ndisallow_untyped_defs = True\nwarn_redundant_casts = True\nstrict_equality = True\n"
+                    "[mypy-dateutil.*]\nignore_missing_imports = True\n")
+        p = subprocess.run(["/venv/bin/python", "-m", "mypy", "--config-file", ini, "--no-incremental", "--cache-dir=/dev/null", str(out)],
+                           capture_output=True, text=True, timeout=600, cwd=str(tmp))
+        if p.returncode == 0:
+            return None
+        lines = [l for l in p.stdout.splitlines() if ": error:" in l]
+        return f"mypy reports {len(lines)} error(s) on the schematic package '{which}': " + " | ".join(l.split("/")[-1] for l in lines[:4])
+    finally:
+        shutil.rmtree(tmp, ignore_errors=True)
